@@ -6,6 +6,10 @@
 From BW Require Import Select Run.
 From BWP Require Import TextFacts Select_proofs Diff_proofs C01_proofs.
 From BWP Require Import Patch_proofs.
+From BW Require Import Main.
+From BWGen Require Import ExtTable.
+From BWP Require Import Main_proofs MainCompose_proofs Scope_proofs.
+From BWP Require Import Order_proofs Context_proofs Run_proofs DriftE2E_proofs.
 
 (* Every added (or edited = paired) line of any hunk yields a change at its
    new-file line number. *)
@@ -169,3 +173,72 @@ Theorem C01_body_lines_skipped : forall ds rest files cur src,
   parse_lines (map print_dline ds ++ rest) files cur src = parse_lines rest files cur src.
 Proof. exact parse_lines_skip_body. Qed.
 Print Assumptions C01_body_lines_skipped.
+
+(* From the diff text: the line changes of a printed well-formed patch are those of its sections and hunks (C01_patch_roundtrip composed with the hunk walk). *)
+Theorem C01_printed_patch_changes : forall cdiff fs,
+  Forall good_file fs -> Forall clean_file fs ->
+  line_changes_from_diff cdiff (print_patch fs) = changes_of_files cdiff fs [].
+Proof. exact line_changes_of_printed_patch. Qed.
+Print Assumptions C01_printed_patch_changes.
+
+(* A change on a line strictly inside a block's content selects the block and marks its content modified. *)
+Theorem C01_interior_change_marks_block : forall all lcs bs b lc,
+  In b bs -> In lc lcs ->
+  fst (b_cs b) < lc_line lc -> lc_line lc < fst (b_ce b) -> visible_change lc ->
+  In (mk_bctx lcs b) (select_blocks all lcs bs) /\
+  bc_contmod (mk_bctx lcs b) = true /\ bc_block (mk_bctx lcs b) = b.
+Proof. exact interior_change_marks_block. Qed.
+Print Assumptions C01_interior_change_marks_block.
+
+(* A content-modified block with a link whose target is not modified: the affects diagnostic at its start tag is in the run's report whenever the affects validator is switched on - whatever the other validators do. *)
+Theorem C01_drift_in_report : forall o en dis (ctx : context) fc bc v refs r sev path' n,
+  In V_AFFECTS (active_validators en dis) ->
+  In fc ctx -> In bc (fc_blocks fc) ->
+  bc_contmod bc = true ->
+  get_attr (T "affects") (b_attrs (bc_block bc)) = Some v ->
+  parse_affects_attribute v = Ok refs ->
+  In r refs -> resolve_ref (fc_path fc) r = (path', n) ->
+  ~ In (path', n) (named_modified ctx) ->
+  sev_of (b_attrs (bc_block bc)) = Ok sev ->
+  In (fc_path fc, drift_diag (bc_block bc) sev path' n)
+     (vr_diags (run_validators o ctx (detected_validators en dis ctx))).
+Proof. exact drift_in_run_diags. Qed.
+Print Assumptions C01_drift_in_report.
+
+(* END TO END, from the diff text on stdin to the process exit status: an accepted command line in diff mode, a printed well-formed patch one of whose hunks adds (or visibly changes) a line inside the content of a block that declares affects = path:n, and no section of the patch targeting that path - then the process exits non-zero when the block has severity error, and when nothing else fails the report holds the affects diagnostic at the block's start tag. *)
+Theorem C01_drift_detected_end_to_end :
+  forall a p ms tb cd fs f h l m bs b v refs r sev path' n,
+  (* command line accepted (plan p), a validation run (not `list`), stdin not a terminal *)
+  plan_of a = Ok p -> ca_list a = false -> ca_terminal a = false ->
+  (* stdin holds the printed, well-formed patch fs *)
+  ca_stdin a = print_patch fs -> Forall good_file fs -> Forall clean_file fs ->
+  (* one section per target path (whole-file removals aside); distinct file paths *)
+  NoDup (map target_path (live fs)) ->
+  NoDup (map (fun m => rf_path (mf_file m)) ms) ->
+  (* section f is about file m *)
+  In f fs -> In m ms -> target_path f = rf_path (mf_file m) ->
+  (* m is not ignored, has a grammar, is readable, parses to bs, b among them *)
+  eff_ignored a m = false ->
+  grammar_of ext_table (pl_ext p) (rf_path (mf_file m)) <> None ->
+  rf_readable (mf_file m) = true ->
+  parse_file (rf_text (mf_file m)) (rf_spans (mf_file m)) = Ok bs -> In b bs ->
+  (* the added line l of hunk h lies strictly inside b's content lines *)
+  In h (pf_hunks f) -> In l (h_lines h) -> dl_kind l = KAdd ->
+  fst (b_cs b) < dl_tgt l -> dl_tgt l < fst (b_ce b) ->
+  (* a replaced line differs visibly from the line it replaces (vacuous for pure additions) *)
+  visibly_differs (fun x y => assoc2 x y cd) (h_lines h) l ->
+  (* b's affects list is well-formed and its entry r resolves to block n of file path' *)
+  get_attr (T "affects") (b_attrs b) = Some v -> parse_affects_attribute v = Ok refs ->
+  In r refs -> resolve_ref (rf_path (mf_file m)) r = (path', n) ->
+  (* b's severity (1 = error, the default); the affects validator is switched on *)
+  sev_of (b_attrs b) = Ok sev ->
+  In V_AFFECTS (active_validators (pl_enabled p) (pl_disabled p)) ->
+  (* nothing under path' is changed: no section that keeps its file targets it *)
+  (forall g, In g fs -> is_removed_file g = false -> target_path g <> path') ->
+  let cr := model_context (main_case a p ms tb cd) in
+  (sev = 1 -> main_exit (main_model a ms tb cd) <> 0) /\
+  (cr_panic cr = false -> cr_errs cr = [] ->
+   exists res, main_model a ms tb cd = MRun res /\
+               In (rf_path (mf_file m), drift_diag b sev path' n) (vr_diags res)).
+Proof. exact drift_detected_end_to_end. Qed.
+Print Assumptions C01_drift_detected_end_to_end.
